@@ -3610,12 +3610,11 @@ bn_mod_sqrt(bn_p bn, bn_p m, bn_mod_rd_data_p mod_rd_data) {
 		BN_RET_ON_ERR(bn_init(&t, bits));
 		/* Select b random quadratic nonresidue. */
 		/* Initialize random algorithm. */
-		BN_RET_ON_ERR(bn_assign(&b, bn));
-		BN_RET_ON_ERR(bn_assign(&tm, m));
-		bits = bn_calc_bits(&b);
+		/* Try 2, 3, 4...: the least non-residue of a prime is small. */
+		BN_RET_ON_ERR(bn_assign_digit(&b, 1));
+		bits = 1024;
 		do {
-			bn_r_shift(&tm, 1);
-			BN_RET_ON_ERR(bn_xor(&b, &tm));
+			bn_add_digit(&b, 1, NULL);
 		} while (-1 != bn_mod_legendre(&b, m, mod_rd_data) && 0 != --bits);
 		if (0 == bits)
 			return (-1);
